@@ -46,7 +46,7 @@ func calleeOfCondition(c cond) (*ssa.Call, int, bool, bool) {
 		} else if isNilConst(bo.X) {
 			e = bo.Y
 		}
-		if e != nil && isErrorType(e.Type()) && (bo.Op == token.EQL) == c.Pos {
+		if e != nil && (isErrorType(e.Type()) || isErrPointerResult(e)) && (bo.Op == token.EQL) == c.Pos {
 			if call, idx, ok := resultOf(e); ok {
 				if callee := call.Call.StaticCallee(); callee != nil && p.isRepoFunc(callee) && len(callee.Blocks) > 0 {
 					return call, idx, true, true
@@ -249,11 +249,31 @@ func definitelyNonNilError(v ssa.Value, at *ssa.BasicBlock) bool {
 	switch x := v.(type) {
 	case *ssa.MakeInterface:
 		return true
+	case *ssa.Alloc:
+		return true // the address of a freshly built value
 	case *ssa.Call:
 		if callee := x.Call.StaticCallee(); callee != nil {
 			switch callee.String() {
 			case "fmt.Errorf", "errors.New":
 				return true
+			}
+			// a repository constructor of an error value: every return hands out a fresh object
+			if summaryProgram != nil && summaryProgram.isRepoFunc(callee) && len(callee.Blocks) > 0 && callee.Signature.Results().Len() == 1 {
+				all := true
+				n := 0
+				for _, b := range callee.Blocks {
+					if ret, ok := b.Instrs[len(b.Instrs)-1].(*ssa.Return); ok && len(ret.Results) == 1 {
+						n++
+						switch ret.Results[0].(type) {
+						case *ssa.Alloc, *ssa.MakeInterface:
+						default:
+							all = false
+						}
+					}
+				}
+				if all && n > 0 {
+					return true
+				}
 			}
 		}
 	case *ssa.UnOp:
